@@ -96,6 +96,7 @@ pub open spec fn sl_hist_inv_d(d: SpendingLimitData, now: u32, log: Seq<Spending
     &&& log.skip(log.len() - h.len()) =~= h
     &&& forall|i: int| 0 <= i < log.len() - h.len() ==> (#[trigger] log[i]).ledger_sequence as int + period as int <= now as int
     &&& sl_windows_ok(log, limits, period)
+    &&& forall|i: int| 0 <= i < log.len() ==> (#[trigger] log[i]).amount >= 0
 }
 pub open spec fn sl_hist_inv(w: World, log: Seq<SpendingEntry>, limits: Seq<i128>, period: u32, a: Address, id: u32) -> bool {
     sl_installed(w, a, id) && sl_hist_inv_d(sl_data(w, a, id).unwrap(), w.ledger_seq, log, limits, period)
@@ -206,6 +207,10 @@ pub proof fn lemma_sl_step_enforce(w: World, ctx: Context, n_signers: nat, log: 
     lemma_sl_enforce_step(d, now, amount);
     lemma_hist_enforce_tail(d, now, amount, log, limits, period);
     lemma_hist_enforce_windows(d, now, amount, log, limits, period);
+    let x = SpendingEntry { amount: amount, ledger_sequence: now };
+    assert forall|i: int| 0 <= i < log.push(x).len() implies (#[trigger] log.push(x)[i]).amount >= 0 by {
+        if i < log.len() { assert(log.push(x)[i] == log[i]); }
+    }
 }
 
 pub proof fn lemma_sl_step(w: World, st: SlStep, log: Seq<SpendingEntry>, limits: Seq<i128>, period: u32, a: Address, id: u32)
@@ -273,4 +278,91 @@ pub proof fn lemma_sl_install_genesis(w: World, p: SpendingLimitAccountParams, a
     let d0 = SpendingLimitData { spending_limit: p.spending_limit, period_ledgers: p.period_ledgers,
         spending_history: Vec { s: Ghost(Seq::<SpendingEntry>::empty()) }, cached_total_spent: 0 };
     lemma_sl_data_after_set(w_auth(w, a), a, id, d0);
+}
+
+// ---- corollary: every window of `period` consecutive ledgers ----
+/// Σ amounts of the entries recorded at a ledger in [lo, hi]
+pub open spec fn range_sum(s: Seq<SpendingEntry>, lo: int, hi: int) -> int
+    decreases s.len()
+{
+    if s.len() == 0 { 0 } else {
+        (if lo <= s[0].ledger_sequence as int <= hi { s[0].amount as int } else { 0 }) + range_sum(s.drop_first(), lo, hi)
+    }
+}
+pub proof fn lemma_range_sum_concat(a: Seq<SpendingEntry>, b: Seq<SpendingEntry>, lo: int, hi: int)
+    ensures range_sum(a + b, lo, hi) == range_sum(a, lo, hi) + range_sum(b, lo, hi),
+    decreases a.len()
+{
+    if a.len() == 0 { assert(a + b =~= b); } else {
+        assert((a + b).drop_first() =~= a.drop_first() + b);
+        lemma_range_sum_concat(a.drop_first(), b, lo, hi);
+    }
+}
+pub proof fn lemma_range_sum_push(h: Seq<SpendingEntry>, x: SpendingEntry, lo: int, hi: int)
+    ensures range_sum(h.push(x), lo, hi) == range_sum(h, lo, hi) + (if lo <= x.ledger_sequence as int <= hi { x.amount as int } else { 0 }),
+{
+    assert(h.push(x) =~= h + seq![x]);
+    lemma_range_sum_concat(h, seq![x], lo, hi);
+    assert(seq![x].drop_first() =~= Seq::<SpendingEntry>::empty());
+    assert(range_sum(seq![x], lo, hi) == (if lo <= x.ledger_sequence as int <= hi { x.amount as int } else { 0 }) + range_sum(seq![x].drop_first(), lo, hi));
+}
+/// with non-negative amounts, what lies in [lo, hi] is at most what lies after any c < lo
+pub proof fn lemma_range_le_win(s: Seq<SpendingEntry>, lo: int, hi: int, c: int)
+    requires c < lo, forall|i: int| 0 <= i < s.len() ==> (#[trigger] s[i]).amount >= 0,
+    ensures range_sum(s, lo, hi) <= win_sum(s, c),
+    decreases s.len()
+{
+    if s.len() > 0 {
+        assert(s[0].amount >= 0);
+        assert forall|i: int| 0 <= i < s.drop_first().len() implies (#[trigger] s.drop_first()[i]).amount >= 0 by {
+            assert(s.drop_first()[i] == s[i + 1]);
+        }
+        lemma_range_le_win(s.drop_first(), lo, hi, c);
+    }
+}
+/// any window [lo, lo+period-1]: the logged transfers inside it sum to at most `bound`, where `bound` is
+/// any value no smaller than the limits in force when the transfers inside the window were authorized
+pub proof fn lemma_any_window_prefix(log: Seq<SpendingEntry>, limits: Seq<i128>, period: u32, lo: int, bound: int, m: int)
+    requires
+        sl_windows_ok(log, limits, period), period > 0, bound >= 0, 0 <= m <= log.len(),
+        forall|i: int| 0 <= i < log.len() ==> (#[trigger] log[i]).amount >= 0,
+        forall|i: int| 0 <= i < log.len() && lo <= (#[trigger] log[i]).ledger_sequence as int <= lo + period as int - 1 ==> limits[i] as int <= bound,
+    ensures range_sum(log.take(m), lo, lo + period as int - 1) <= bound,
+    decreases m
+{
+    let hi = lo + period as int - 1;
+    if m == 0 {
+        assert(log.take(0) =~= Seq::<SpendingEntry>::empty());
+    } else {
+        let x = log[m - 1];
+        assert(log.take(m) =~= log.take(m - 1).push(x));
+        lemma_range_sum_push(log.take(m - 1), x, lo, hi);
+        if lo <= x.ledger_sequence as int <= hi {
+            let c = x.ledger_sequence as int - period as int;
+            assert forall|i: int| 0 <= i < log.take(m).len() implies (#[trigger] log.take(m)[i]).amount >= 0 by {
+                assert(log.take(m)[i] == log[i]);
+            }
+            lemma_range_le_win(log.take(m), lo, hi, c);
+            assert(win_sum(log.take(m), c) <= limits[m - 1]);
+        } else {
+            lemma_any_window_prefix(log, limits, period, lo, bound, m - 1);
+        }
+    }
+}
+/// C14, window form: in every window of `period` consecutive ledgers the authorized amounts sum to at
+/// most the largest limit in force at an authorization inside that window
+pub proof fn lemma_sl_history_any_window(w0: World, steps: Seq<SlStep>, a: Address, id: u32, lo: int, bound: int)
+    requires
+        sl_genesis(w0, a, id), sl_valid(w0, steps, a, id), bound >= 0,
+        forall|i: int| 0 <= i < sl_log(w0, steps, a, id).len()
+            && lo <= (#[trigger] sl_log(w0, steps, a, id)[i]).ledger_sequence as int <= lo + sl_data(w0, a, id).unwrap().period_ledgers as int - 1
+            ==> sl_limits(w0, steps, a, id)[i] as int <= bound,
+    ensures
+        //@@ C14:spending.history.any_window_within_limit
+        range_sum(sl_log(w0, steps, a, id), lo, lo + sl_data(w0, a, id).unwrap().period_ledgers as int - 1) <= bound,
+{
+    let log = sl_log(w0, steps, a, id);
+    lemma_sl_history(w0, steps, a, id);
+    assert(log.take(log.len() as int) =~= log);
+    lemma_any_window_prefix(log, sl_limits(w0, steps, a, id), sl_data(w0, a, id).unwrap().period_ledgers, lo, bound, log.len() as int);
 }
